@@ -20,6 +20,8 @@ TARGETS = {
     "C13-d": ["C13", "C14"],
     "C10-d": ["C10"], "C11-d": ["C11", "C12", "C14"], "C12-d": ["C12", "C07", "C13"], "C14-d": ["C14"],
     "C15-d": ["C15", "C14"], "C16-d": ["C16", "C19"], "C17-d": ["C17"], "C18-d": ["C18"], "C19-d": ["C19"],
+    "C01-e": ["C01", "C09"], "C02-e": ["C02", "C03"], "C03-e": ["C03", "C04"], "C04-e": ["C04"], "C05-e": ["C05", "C03"],
+    "C06-e": ["C06", "C07"], "C07-e": ["C07", "C06"], "C08-e": ["C08"], "C09-e": ["C09", "C01"], "C13-e": ["C13", "C04"],
 }
 only = sys.argv[1:]
 for sid in sorted(os.listdir("/verif/seeded")):
